@@ -9,6 +9,7 @@ from pyvc.values import (Struct, Sym, PList, PDict, PSet, term, wrap, zand, zor,
 from spec.idx import new_index
 
 ASSUMPTIONS = [
+    "Obj.allowed_spin_blocks: spin conservation of a tensor with n upper and n lower indices = as many alpha spins above as below; Coulomb integrals in chemist notation: the two orbitals of one electron (upper, respectively lower pair) carry the same spin; objects enumerated (ERI, t-amplitudes of rank 2/4/6, Fock matrix, Coulomb integral, delta, operator, number); intermediates are looked up (their tables: bounded stand-in allowed_spin_blocks.complete)",
     "concrete-shape proof: 1-3 tensors with 1-2 candidate spin maps each, every map assigning <= 2 indices (index identities symbolic); Python set semantics (update, difference_update, &)",
     "integrate_spin / transform_to_spatial_orbitals / allowed_spin_blocks themselves and the hard coded block tables are only covered by the bounded stand-ins integrate_spin.value and restricted.all_alpha",
 ]
@@ -134,3 +135,83 @@ class HasValidCombination(Contract):
                                  for m in row]))
             out.append(("variant-contains-one-map-of-every-remaining-tensor", zand(*per)))
         return out
+
+
+# --- Obj.allowed_spin_blocks: the table of a tensor holds every spin conserving block -------------------
+# (second clause of the property: a block that is NOT reported is identically zero for tensors that
+#  vanish on non spin conserving blocks - so every spin conserving block has to be reported)
+def _product_model(ip, args, kwargs):
+    rep = kwargs.get("repeat", 1)
+    pools = [list(a) if isinstance(a, (str, tuple)) else list(a.items) for a in args]
+    if not isinstance(rep, int):
+        raise Unsupported("itertools.product with symbolic repeat")
+    return PList([tuple(t) for t in itertools.product(*pools, repeat=rep)])
+
+
+class _IsTAmplitude(Contract):
+    key = "adcgen.tensor_names:is_t_amplitude"
+    props = []
+    assumed = True
+    note = "name classification (C19): the abstract amplitude is called t1"
+
+    def apply(self, vc, a):
+        return a["name"] == "t1"
+
+
+if _IsTAmplitude.key not in C.REGISTRY:
+    register(_IsTAmplitude)
+
+
+@register
+class ObjAllowedSpinBlocks(Contract):
+    key = "adcgen.expr_container:Obj.allowed_spin_blocks"
+    props = ["C15"]
+    # (kind, number of upper indices, number of lower indices)
+    KINDS = [("eri", 2, 2), ("amplitude", 1, 1), ("amplitude", 2, 2), ("amplitude", 3, 3), ("fock", 1, 1),
+             ("coulomb", 2, 2), ("delta", 1, 1), ("operator", 1, 0), ("number", 0, 0)]
+
+    def setup(self, vc):
+        kind, nu, nl = self.KINDS[vc.choose(len(self.KINDS), "object")]
+        C.EXTERNALS["adcgen.tensor_names:tensor_names"] = Struct("TensorNames", eri="V", coulomb="v", fock="f")
+        C.EXTERNALS["itertools.product"] = _product_model
+        idx = tuple(Struct("IdxTok3", pos=k) for k in range(nu + nl))
+        name = {"eri": "V", "amplitude": "t1", "fock": "f", "coulomb": "v"}.get(kind)
+        base = Struct("BaseObj", kind=kind, name=name, idx=idx)
+        C.STRUCT_ATTR[("BaseObj", "name")] = lambda ip, o: o.f["name"]
+        C.STRUCT_ATTR[("BaseObj", "idx")] = lambda ip, o: o.f["idx"]
+
+        def isinst(ip, v, cls):
+            names = {(c.key if hasattr(c, "key") else getattr(c, "dotted", str(c))).split(":")[-1].split(".")[-1]
+                     for c in (cls if isinstance(cls, tuple) else (cls,))}
+            k = v.f["kind"]
+            return ("SymbolicTensor" in names and k in ("eri", "amplitude", "fock", "coulomb")) or \
+                ("KroneckerDelta" in names and k == "delta") or ("FermionicOperator" in names and k == "operator")
+        C.STRUCT_ISINSTANCE["BaseObj"] = isinst
+        me = Struct("ObjSelf3", base=base, idx=idx)
+        C.STRUCT_ATTR[("ObjSelf3", "base")] = lambda ip, o: o.f["base"]
+        C.STRUCT_ATTR[("ObjSelf3", "idx")] = lambda ip, o: o.f["idx"]
+
+        vc.ghost["_kind"] = (kind, nu, nl)
+        return {"self": me}
+
+    def post(self, vc, a, result):
+        kind, nu, nl = vc.ghost["_kind"]
+        if kind == "number":
+            return [("objects-without-indices-have-no-spin-blocks", result is None)]
+        blocks = list(result) if isinstance(result, tuple) else list(result.items) if isinstance(result, PList) else None
+        if blocks is None:
+            return [("a-tuple-of-spin-blocks-is-returned", False)]
+        n = nu + nl
+        allb = ["".join(t) for t in itertools.product("ab", repeat=n)]
+        if kind in ("eri", "amplitude", "fock"):
+            # spin conserving: as many alpha spins above as below
+            need = [b for b in allb if b[:nu].count("a") == b[nu:].count("a")]
+        elif kind == "coulomb":
+            # (pq|rs): p, q of one electron and r, s of the other carry the same spin
+            need = [b for b in allb if b[0] == b[1] and b[2] == b[3]]
+        elif kind == "delta":
+            need = ["aa", "bb"]
+        else:
+            need = ["a", "b"]
+        return [("every-spin-conserving-block-is-reported", set(need) <= set(blocks)),
+                ("only-blocks-of-the-right-length-are-reported", all(len(b) == n for b in blocks))]
